@@ -23,6 +23,10 @@ KEYS = {
     'is_dir': ('str', lambda e: 'true' if e['isdir'] else 'false'),
     'mode': ('str', lambda e: stat.filemode(e['mode'])),
     'upper(name)': ('str', lambda e: e['name'].upper()),
+    'dow(modified)': ('num', lambda e: (time.gmtime(e['mtime']).tm_wday + 1) % 7 + 1),
+    'month(modified)': ('num', lambda e: time.gmtime(e['mtime']).tm_mon),
+    'hex(size)': ('str', lambda e: '%x' % e['size']),
+    'concat(size, name)': ('str', lambda e: '%d%s' % (e['size'], e['name'])),
     '1000 - size': ('num', lambda e: 1000 - e['size']),          # literal on the left: written by position only
 }
 POSITIONAL_ONLY = {'1000 - size'}
